@@ -18,7 +18,7 @@ TEXT = {
  'C08': ('Deductive proof (Verus) on the real metadata code: into_sanitized_headers strips exactly the six reserved names and keeps every other key with its value sequence (loop invariant over the real GRPC_RESERVED_HEADERS table); Request/Response::into_http and Status::add_header emit user metadata only through it; Ascii/Binary::is_valid_key partition the keys by the -bin suffix; typed accessors (get/get_bin/remove/insert/append and their _bin variants) and Iter::next never cross the partition; Binary values are base64 on the wire and decode to the original bytes for padded and unpadded input (lemma over the b64 axioms).',
          'Assumed: http::HeaderMap multimap contract, base64 inverse axioms, repr(transparent) casts.'),
  'C05': ('Deductive proof (Verus) on the real compression.rs: from_accept_encoding_header only returns an encoding that is enabled for sending AND offered by the request; from_encoding_header accepts exactly the enabled encodings, identity/absent means none, everything else is refused with UNIMPLEMENTED carrying grpc-accept-encoding == exactly the enabled list; compress()/decompress() call the coder named by the encoding; decode_chunk rejects flag 1 without negotiated encoding with INTERNAL.',
-         'The EnabledCompressionEncodings slot algebra (enable/pop/is_enabled/is_empty) is decided on the real code by complete Kani harnesses over all slot states. Assumed: into_accept_encoding_header_value (A-tonic-cfg-01, intractable for CBMC); str split/trim as uninterpreted token list; flate2/zstd coders as uninterpreted functions with inverse axioms. Byte-string match arms are verified through rewrite R15 (first-match if-chain).'),
+         'The EnabledCompressionEncodings slot algebra (enable/pop/is_enabled/is_empty) is decided on the real code by complete Kani harnesses over all slot states; into_accept_encoding_header_value (intractable for CBMC) is proved in Verus: None iff nothing enabled, else exactly name,name,identity in slot order. Assumed: str split/trim as uninterpreted token list; flate2/zstd coders as uninterpreted functions with inverse axioms. Byte-string match arms are verified through rewrite R15 (first-match if-chain).'),
  'C12': ('Deductive proof (Verus) of the frame condition on the real InterceptedService::call with the real Request::{from_http,into_parts,from_parts,into_http}: on accept exactly one inner call whose uri/method/version/body are the original and whose headers are exactly the interceptor\'s metadata (no sanitising); on reject the inner service is not called and ResponseFuture::poll resolves to exactly Status::into_http (200, application/grpc, grpc-status/message/details + sanitized metadata, empty body).',
          'Assumed: tower Service seen through a ghost call log, pin-project projections, http::Request/Response records; Status::into_http contract is proved in unit status (same clause text).'),
  'C04': ('Deductive proof (Verus) on the real status.rs: Code::{from_i32,from_bytes,to_header_value} equal independent tables for ALL inputs (from_bytes total: any byte string), Status::add_header/to_header_map write exactly code/message/details/sanitized metadata and never fail, Status::from_header_map is total (no panic obligation left: every expect/unwrap discharged) and exact, lemma_status_roundtrip: write then read gives the same status; infer_grpc_status and code_from_h2 equal the mapping tables of the statement.',
